@@ -53,10 +53,12 @@ func c09Scenarios(r *vmc.Result) []rtScenario {
 		rtMkScenario("f-keys", 0, p1, rtAlpha{Tbl: 'f', Keys: vmc.Pick(r, keys[:3], keys), Peers: p1, Origins: o2, Seqs: s1, Metrics: m1}),
 		rtMkScenario("f-metric", vmc.Pick(r, 4, 5), p1, rtAlpha{Tbl: 'f', Keys: []string{"web", "Web"}, Peers: p1, Origins: o2,
 			Seqs: s2, Metrics: m3, LoopAdv: true, LocalKeys: []string{"web"}, LocalMet: m2[1:]}),
-		rtMkScenario("a-metric", vmc.Pick(r, 4, 5), p2, rtAlpha{Tbl: 'a', Keys: o2, Peers: p2, Origins: o2, Seqs: s2, Metrics: m3, LoopAdv: true, AgentAny: thorough}),
+		rtMkScenario("a-metric", vmc.Pick(r, 4, 5), p2, rtAlpha{Tbl: 'a', Keys: o2, Peers: p2, Origins: o2, Seqs: s2, Metrics: m3, LoopAdv: true}),
 	}
 	if thorough {
 		scs = append(scs,
+			// agent routes whose origin differs from the target agent (the API allows it; the mesh never sends it)
+			rtMkScenario("a-metric-any-origin", 4, p2, rtAlpha{Tbl: 'a', Keys: o2, Peers: p2, Origins: o2, Seqs: s2, Metrics: m3, LoopAdv: true, AgentAny: true}),
 			rtMkScenario("d-metric-2peers", 4, p2, rtAlpha{Tbl: 'd', Keys: []string{"a.com", "A.com", "*.a.com"}, Peers: p2, Origins: o2, Seqs: s2, Metrics: m3, LoopAdv: true}),
 			rtMkScenario("f-metric-2peers", 4, p2, rtAlpha{Tbl: 'f', Keys: []string{"web", "Web"}, Peers: p2, Origins: o2, Seqs: s2, Metrics: m3, LoopAdv: true,
 				LocalKeys: []string{"web"}, LocalMet: m2[1:]}))
